@@ -20,6 +20,7 @@ pub fn singleton_save__KEY_CONFIG(storage: &mut dyn Storage, v: &Config) -> (r: 
 #[verifier::external_body]
 pub fn item_may_load__VAMM_LIST(storage: &dyn Storage) -> (r: StdResult<Option<Vec<Addr>>>)
     ensures
+        r is Ok,   // a value stored by this contract always deserialises (T4)
         r is Ok ==> (r->Ok_0 is Some <==> storage.view().vamm_list is Some),
         r is Ok && r->Ok_0 is Some ==> r->Ok_0->Some_0@ == storage.view().vamm_list->Some_0,
 { unimplemented!() }
@@ -43,7 +44,7 @@ impl Admin {
     pub const fn new(ns: &str) -> (r: Admin) { Admin {} }
     #[verifier::external_body]
     pub fn is_admin(&self, deps: Deps, caller: &Addr) -> (r: StdResult<bool>)
-        ensures r is Ok ==> r->Ok_0 == (deps.storage.view().admin == Some(*caller)),
+        ensures r is Ok, r->Ok_0 == (deps.storage.view().admin == Some(*caller)),   // a typed-cell load of a present or absent value never fails (T3/T4)
     { unimplemented!() }
     #[verifier::external_body]
     pub fn get(&self, deps: Deps) -> (r: StdResult<Option<Addr>>)
